@@ -53,6 +53,10 @@ class IlluminaExonCorrector:
         introns = dict()
         for f in files:
             samfile = pysam.AlignmentFile(f, "rb") 
+            if samfile.get_tid(chromosome) < 0:
+                # the header of this short-read file does not list the sequence: no alignments, hence no introns, on it
+                samfile.close()
+                continue
             intr = samfile.find_introns(samfile.fetch(chromosome, start = start, stop = end))
             introns = self.merge_dictionaries(introns, intr)
             samfile.close()
